@@ -64,24 +64,6 @@ theorem nul_insertion_returned : ¬ C10_corruption_full := by
     DecRes.of_msgOf (by decide +kernel)
   exact h bs44 [] _ _ goodFrame_wf.1 goodFrame_wf.2 he _ m 39 hm
 
-/-- the valid frame without its last byte -/
-def unterminatedFrame : Bytes := gA ++ [1, 51, 52, 61, 49, 48, 48, 1, 49, 48, 61, 48, 49, 48]
-
-/-- C10-unterminated-frame-returned: the valid frame with its final SOH deleted, followed by the
-marker of the next frame (whose first SOH has not arrived yet), is returned – and 39 bytes, one more
-than the returned frame has, are consumed. -/
-theorem final_soh_deletion_returned : ¬ C10_corruption_full := by
-  intro h
-  have he : Edit1 goodFrame unterminatedFrame := by
-    have e : goodFrame = (gA ++ [1, 51, 52, 61, 49, 48, 48, 1, 49, 48, 61, 48, 49, 48]) ++ 1 :: [] := by
-      decide +kernel
-    have e2 : unterminatedFrame = (gA ++ [1, 51, 52, 61, 49, 48, 48, 1, 49, 48, 61, 48, 49, 48]) ++ [] := by
-      simp [unterminatedFrame]
-    rw [e, e2]; exact Edit1.delete _ _ 1
-  obtain ⟨m, hm⟩ : ∃ m, decode bs44 [] (unterminatedFrame ++ [56, 61, 70, 73, 88, 46]) = .msg m 39 unterminatedFrame :=
-    DecRes.of_msgOf (by decide +kernel)
-  exact h bs44 [] _ _ goodFrame_wf.1 goodFrame_wf.2 he _ m 39 hm
-
 /-- the full statement of C10's second sentence does not hold for the unchanged code -/
 theorem not_C10_full : ¬ C10_full := fun h => not_bodylength_full h.1
 
